@@ -110,6 +110,10 @@ def build(spec):
         return int(spec[1])
     if k == "ipnet":
         return spec[1]
+    if k == "typed":
+        # a value that already is an instance of a flow field type (`fieldtypes.boolean(True)`, `uri("http://x")`)
+        from flow.record.base import fieldtype
+        return fieldtype(spec[1])(build(spec[2]))
     if k == "list":
         return [build(x) for x in spec[1]]
     if k == "tuple":
@@ -135,6 +139,11 @@ def build_record(recspec, **meta):
             kw[key] = build(m[key])
     kw.update(meta)
     rec = desc.recordType(*vals, **kw)
+    # {"_append": {field name: [value specs]}}: elements added to a list field IN PLACE after the record was built
+    # (`rec.paths.append("x")`), as plain values - the typed list converts them only when the record is packed
+    for fname, extra in (m.get("_append") or {}).items():
+        for x in extra:
+            getattr(rec, fname).append(build(x))
     # a record carries the descriptor it was created with: checked against the SPEC here, because every later
     # observation goes through rec._desc and would follow a corrupted descriptor silently
     try:
@@ -148,6 +157,20 @@ def build_record(recspec, **meta):
 
 
 DESC_MISMATCH = []
+
+
+def merge_append(recspec):
+    """the record spec whose list fields hold the `_append`ed elements from the start (the record the in-place edits
+    must be equivalent to)"""
+    m = recspec[3] if len(recspec) > 3 and recspec[3] else {}
+    if not m.get("_append"):
+        return recspec
+    names = [n for _, n in recspec[1][1]]
+    vals = list(recspec[2])
+    for fname, extra in m["_append"].items():
+        i = names.index(fname)
+        vals[i] = ["list", list(vals[i][1]) + list(extra)]
+    return ["rec", recspec[1], vals, {k: v for k, v in m.items() if k != "_append"}]
 
 
 # ------------------------------------------------------------------ observe: Python value -> canonical JSON-able
